@@ -289,6 +289,15 @@ pub fn run_case(idx: usize, case: &Value, o: &SemOpts) -> (Value, Option<Value>,
         let p1: Value = serde_json::from_str(&re_opt.verif_program_json()).unwrap();
         let p2: Value = serde_json::from_str(&re_noopt.verif_program_json()).unwrap();
         vm.insert("progs".into(), json!({"opt": p1, "noopt": p2}));
+        // the tree after parsing and after every optimizer pass that changed it
+        let ir = catch_unwind(AssertUnwindSafe(|| {
+            regress::verif::ir_trace_json(pat.iter().copied(), fl.to_regress(false))
+        }));
+        if let Ok(Ok(s)) = ir {
+            if let Ok(v) = serde_json::from_str::<Value>(&s) {
+                vm.insert("ir".into(), v["stages"].clone());
+            }
+        }
     }
 
     let hays: Vec<Vec<u32>> = case["hays"]
